@@ -121,13 +121,14 @@ def resolveCols (names : List String) : List ColRef → Except String (List Int)
     | some i => (resolveCols names xs).map ((i : Int) :: ·)
     | none => .error "ValueError"
 
-/-- `collect` as `DataFrame.collect` + `collect_cython` compute it (early exit, bounds check against
-the width of the first row, transpose). -/
+/-- `collect` as `DataFrame.collect` + `collect_cython` compute it (name resolution, conversion of the
+limit to the C parameter, early exit, bounds check against the width of the first row, transpose). -/
 def collectOp (sch : Schema) (rows : List (List α)) (cols : List ColRef) (limit : Option Int) : SReg α :=
   match resolveCols sch.names cols with
   | .error c => .err c
   | .ok cs =>
-    if rows.isEmpty ∨ cs.isEmpty then .val (.table (cs.map fun _ => []))
+    if !limitFits (passedLimit rows.length limit) then .err "OverflowError"
+    else if rows.isEmpty ∨ cs.isEmpty then .val (.table (cs.map fun _ => []))
     else if cs.any (fun c => c < 0 ∨ c ≥ ((rows.head?.map List.length).getD 0 : Nat)) then .err "IndexError"
     else
       match collect rows (cs.map Int.toNat) limit with
@@ -208,6 +209,12 @@ def specEval [DecidableEq α] (rs : List (SReg α)) : List (Op α) → Option (L
 inductive IReg (α : Type) where
   /-- `lazy = true`: `_rows` is a generator nobody has read yet; it will yield `rows`. -/
   | frame (sch : Schema) (lazy : Bool) (rows : List (List α))
+  /-- the result of `select` on a frame that was not materialised at the time: the projection generator
+  (`_inner_projection`, dataframe.py `select`) has not started; it iterates whatever `src._rows` is when
+  it is first advanced — the source's list if the source has been materialised by then, the source's own
+  generator otherwise (and then the source is spent).  `rows` is what it yields as long as the source
+  still holds its rows (registers whose source lost them are turned into `spent`: `spendSet`). -/
+  | defer (src : Nat) (sch : Schema) (rows : List (List α))
   /-- a lazily backed frame whose generator was iterated by an operator that does not materialise -/
   | spent
   | val (v : Val α)
@@ -242,27 +249,99 @@ def UnOp.lazyResult : UnOp α → Bool
   | .filter _ | .take _ | .select _ => true
   | _ => false
 
+/-- `select` (dataframe.py `select`) reads `self._rows` inside the projection generator, i.e. when the
+selection is first read, not when `select` is called — the generated flag. -/
+def UnOp.readsLate : UnOp α → Bool
+  | .select _ => Gen.Frame.selectReadsLate
+  | _ => false
+
 def ofSpec (lazy : Bool) : SReg α → IReg α
   | .frame sch rows => .frame sch lazy rows
   | .val v => .val v
   | .err c => .err c
   | .iter rows pos => .iter rows pos
 
-/-- `self.materialize()` on register `s`. -/
+/-- A frame result whose generator will read register `src` when it is first advanced. -/
+def deferOf (src : Nat) : SReg α → IReg α
+  | .frame sch rows => .defer src sch rows
+  | .val v => .val v
+  | .err c => .err c
+  | .iter rows pos => .iter rows pos
+
+/-- Registers that hold a generator nobody has run yet (they can lose their rows). -/
+def spendable : IReg α → Bool
+  | .frame _ true _ => true
+  | .defer _ _ _ => true
+  | _ => false
+
+/-- The registers listed in `dead` that hold an unread generator lose their rows. -/
+def spendSet (dead : List Nat) (st : List (IReg α)) : List (IReg α) :=
+  st.mapIdx fun i r => if spendable r && dead.contains i then .spent else r
+
+/-- The generators that run when the generator of register `s` is advanced: `s` itself and, through
+deferred selections, the sources up to the first frame that holds a list (which is only read). -/
+def upChain : Nat → List (IReg α) → Nat → List Nat
+  | 0, _, _ => []
+  | fuel + 1, st, s =>
+    match st[s]? with
+    | some (.defer src _ _) => s :: upChain fuel st src
+    | some (.frame _ true _) => [s]
+    | _ => []
+
+/-- Deferred selections that (transitively) read a register in `dead` — except through register `skip`,
+which is being materialised and keeps its rows as a list. -/
+def downAux (skip : Option Nat) : List Nat → Nat → List (IReg α) → List Nat
+  | dead, _, [] => dead
+  | dead, i, .defer src _ _ :: rs =>
+    if dead.contains src && skip != some i then downAux skip (i :: dead) (i + 1) rs else downAux skip dead (i + 1) rs
+  | dead, i, _ :: rs => downAux skip dead (i + 1) rs
+
+def closure (st : List (IReg α)) (skip : Option Nat) (dead : List Nat) : List Nat := downAux skip dead 0 st
+
+/-- The unstarted generator of register `s` is handed to another frame (`filter`, `take`: `rows =
+self._rows`) or run to the end without being kept (a lazily backed frame under `query`, `distinct`):
+`s` and every deferred selection that would read it lose their rows. -/
+def handOver (st : List (IReg α)) (s : Nat) : List (IReg α) := spendSet (closure st none [s]) st
+
+/-- The generator of register `s` is run to the end by an operator that does not keep the rows
+(`query`, `distinct` on a deferred selection): also the generators up the chain are consumed. -/
+def drain (st : List (IReg α)) (s : Nat) : List (IReg α) := spendSet (closure st none (upChain st.length st s)) st
+
+/-- `self.materialize()` on register `s`: a lazily backed frame turns its own generator into a list; a
+deferred selection runs its projection over the source as it is now (consuming the generators up the
+chain — their other readers lose their rows) and keeps the result as a list. -/
 def materialise (st : List (IReg α)) (s : Nat) : List (IReg α) :=
   match st[s]? with
   | some (.frame sch _ rows) => st.set s (.frame sch false rows)
+  | some (.defer src sch rows) =>
+    (spendSet (closure st (some s) (upChain st.length st src)) st).set s (.frame sch false rows)
   | _ => st
 
 def isLazy (st : List (IReg α)) (s : Nat) : Bool :=
   match st[s]? with
   | some (.frame _ l _) => l
+  | some (.defer _ _ _) => true
   | _ => false
 
 def anyLazy (st : List (IReg α)) : Bool :=
   st.any fun r => match r with
     | .frame _ l _ => l
+    | .defer _ _ _ => true
     | _ => false
+
+/-- Schema and rows of a register that stands for a frame (materialised, lazily backed or deferred). -/
+def frameOf (st : List (IReg α)) (s : Nat) : Option (Schema × List (List α)) :=
+  match st[s]? with
+  | some (.frame sch _ rows) => some (sch, rows)
+  | some (.defer _ sch rows) => some (sch, rows)
+  | _ => none
+
+/-- The rows an operand holds after both were materialised: a frame whose generator was consumed by the
+materialisation of the other operand (a deferred selection of it) holds none. -/
+def rowsNow (st : List (IReg α)) (s : Nat) (rows : List (List α)) : List (List α) :=
+  match st[s]? with
+  | some .spent => []
+  | _ => rows
 
 def implStep [DecidableEq α] (st : List (IReg α)) : Op α → Option (List (IReg α))
   | .un u s =>
@@ -271,18 +350,25 @@ def implStep [DecidableEq α] (st : List (IReg α)) : Op α → Option (List (IR
       let res := ofSpec u.lazyResult (apply1 u sch rows)
       if !lazy then some (st ++ [res])
       else if Gen.Frame.materialisesFirst u.method then some (materialise st s ++ [res])
-      else if u.iterates then some (st.set s .spent ++ [res])
+      else if u.readsLate then some (st ++ [deferOf s (apply1 u sch rows)])
+      else if u.iterates then some (handOver st s ++ [res])
+      else some (st ++ [.err "TypeError"])
+    | some (.defer src sch rows) =>
+      if Gen.Frame.materialisesFirst u.method then some (materialise st s ++ [ofSpec u.lazyResult (apply1 u sch rows)])
+      else if u.readsLate then some (st ++ [deferOf s (apply1 u sch rows)])
+      else if u.lazyResult then some (handOver st s ++ [deferOf src (apply1 u sch rows)])
+      else if u.iterates then some (drain st s ++ [ofSpec false (apply1 u sch rows)])
       else some (st ++ [.err "TypeError"])
     | _ => none
   | .add s t =>
-    match st[s]?, st[t]? with
-    | some (.frame sa _ ra), some (.frame sb _ rb) =>
+    match frameOf st s, frameOf st t with
+    | some (sa, ra), some (sb, rb) =>
       if sa ≠ sb then some (st ++ [.err "ValueError"])
       else
         let st1 := if Gen.Frame.materialisesFirst "__add__" then materialise st s else st
         let st2 := if Gen.Frame.materialisesFirst "__add__.other" then materialise st1 t else st1
         if isLazy st2 s || isLazy st2 t then some (st2 ++ [.err "TypeError"])
-        else some (st2 ++ [.frame sa false (ra ++ rb)])
+        else some (st2 ++ [.frame sa false (rowsNow st2 s ra ++ rowsNow st2 t rb)])
     | _, _ => none
   | .append s r =>
     match st[s]? with
@@ -297,6 +383,9 @@ def implStep [DecidableEq α] (st : List (IReg α)) : Op α → Option (List (IR
       if Gen.Frame.materialisesFirst "__iter__" then some (materialise st s ++ [.iter rows 0])
       else if lazy then some (st ++ [.giter s])
       else some (st ++ [.iter rows 0])
+    | some (.defer _ _ rows) =>
+      if Gen.Frame.materialisesFirst "__iter__" then some (materialise st s ++ [.iter rows 0])
+      else some (st ++ [.giter s])
     | _ => none
   | .next it k =>
     match st[it]? with
@@ -309,13 +398,16 @@ def implStep [DecidableEq α] (st : List (IReg α)) : Op α → Option (List (IR
       | _ => some (st ++ [.val (.table [])])
     | _ => none
   | .zip s t =>
-    match st[s]?, st[t]? with
-    | some (.frame _ la ra), some (.frame _ lb rb) =>
+    match frameOf st s, frameOf st t with
+    | some (_, ra), some (_, rb) =>
       if Gen.Frame.materialisesFirst "__iter__" then
-        some (materialise (materialise st s) t ++ [.val (.pairs (ra.zip rb))])
+        let st2 := materialise (materialise st s) t
+        some (st2 ++ [.val (.pairs ((rowsNow st2 s ra).zip (rowsNow st2 t rb)))])
       else
-        let st1 := if la then st.set s .spent else st
-        let st2 := if lb then st1.set t .spent else st1
+        let la := isLazy st s
+        let lb := isLazy st t
+        let st1 := if la then drain st s else st
+        let st2 := if lb then drain st1 t else st1
         some (st2 ++ [.val (.pairs (if s = t ∧ la then [] else ra.zip rb))])
     | _, _ => none
 
@@ -341,15 +433,17 @@ A program is well formed when every operator refers to registers of the right ki
 goes to a materialised names-only frame while no unread lazily backed frame exists, `next` to an
 iterator.  Everything else — any order, any depth, any arguments — is allowed. -/
 
-def live (st : List (IReg α)) (s : Nat) : Prop := ∃ sch l rows, st[s]? = some (.frame sch l rows)
+def live (st : List (IReg α)) (s : Nat) : Prop := ∃ sch rows, frameOf st s = some (sch, rows)
 
 def wfOp (st : List (IReg α)) : Op α → Prop
   | .un _ s => live st s
-  | .add s t => live st s ∧ live st t
+  /- `a + b` and `zip(a, b)` materialise `a` first; when `a` is a deferred selection of the lazily backed
+  `b`, that consumes `b`'s generator and `b` is spent -/
+  | .add s t => live st s ∧ live (materialise st s) t
   | .append s _ => (∃ sch rows, st[s]? = some (.frame sch false rows) ∧ sch.kind ≠ .typed) ∧ anyLazy st = false
   | .iter s => live st s
   | .next it _ => ∃ rows pos, st[it]? = some (.iter rows pos)
-  | .zip s t => live st s ∧ live st t
+  | .zip s t => live st s ∧ live (materialise st s) t
 
 def wfProg [DecidableEq α] : List (IReg α) → List (Op α) → Prop
   | _, [] => True
@@ -358,14 +452,11 @@ def wfProg [DecidableEq α] : List (IReg α) → List (Op α) → Prop
 /-- Executable forms of `wfOp` / `wfProg` (sound: `Frame.wfProgB_sound`); the driver reports
 `wfProgB` for every program the harness runs, so the evidence says how many of them lie inside the
 scope of the refinement theorem. -/
-def liveB (st : List (IReg α)) (s : Nat) : Bool :=
-  match st[s]? with
-  | some (.frame _ _ _) => true
-  | _ => false
+def liveB (st : List (IReg α)) (s : Nat) : Bool := (frameOf st s).isSome
 
 def wfOpB (st : List (IReg α)) : Op α → Bool
   | .un _ s => liveB st s
-  | .add s t => liveB st s && liveB st t
+  | .add s t => liveB st s && liveB (materialise st s) t
   | .append s _ =>
     (match st[s]? with
       | some (.frame sch false _) => decide (sch.kind ≠ .typed)
@@ -375,7 +466,7 @@ def wfOpB (st : List (IReg α)) : Op α → Bool
     match st[it]? with
     | some (.iter _ _) => true
     | _ => false
-  | .zip s t => liveB st s && liveB st t
+  | .zip s t => liveB st s && liveB (materialise st s) t
 
 def wfProgB [DecidableEq α] : List (IReg α) → List (Op α) → Bool
   | _, [] => true
@@ -405,6 +496,7 @@ def handed (it : Nat) (rows : List (List α)) : Nat → List (Op α) → List (L
 /-- What the implementation state shows of a register (`none`: a spent frame shows nothing). -/
 def IReg.view : IReg α → Option (SReg α)
   | .frame sch _ rows => some (.frame sch rows)
+  | .defer _ sch rows => some (.frame sch rows)
   | .spent => none
   | .val v => some (.val v)
   | .err c => some (.err c)
